@@ -105,7 +105,7 @@ def num_expr(r, nv, depth, extreme, feats):
 
 def log_expr(r, nv, depth, extreme, feats):
     if depth <= 0 or r.chance(1, 3):
-        rel = r.choice(['lt', 'le', 'eq', 'ge', 'gt'] * 6 + ['ne'])   # 'ne' rarely: VisitDisequality crashes on a constant-false equality (side finding)
+        rel = r.choice(['lt', 'le', 'eq', 'ge', 'gt', 'ne'])
         feats.add('cmp_' + rel)
         return (rel, lin_tree(r, nv, extreme), ('n', small(r)))
     k = r.below(11)
